@@ -406,3 +406,22 @@ Proof.
   rewrite !rev_involutive, rev_length, Hlen, Nat.ltb_irrefl, rev_involutive.
   specialize (Hint []). now rewrite app_nil_r in Hint.
 Qed.
+
+(* ---------- encode_input ---------- *)
+Lemma encode_input_spec ts vs s :
+  encode_input ts vs = Some s -> exists bits, encode_args ts vs = Some bits /\ s = rev bits /\
+    forall k, (k < length bits)%nat -> nth (length bits - 1 - k) s false = nth k bits false.
+Proof.
+  unfold encode_input. destruct (encode_args ts vs) as [bits|]; [|discriminate].
+  intros H. injection H as <-. exists bits. repeat split.
+  intros k Hk. rewrite rev_nth by lia. f_equal. lia.
+Qed.
+
+Lemma encode_args_length ts vs bits :
+  wf_list wf_val ts vs = true -> encode_args ts vs = Some bits ->
+  length bits = list_sum (map ty_size ts).
+Proof.
+  intros Hwf Hz. unfold encode_args in Hz.
+  assert (HF : Forall rt_stmt ts) by (apply Forall_forall; intros t _; apply interpret_val_to_bin).
+  exact (proj1 (roundtrip_list ts HF vs bits Hwf Hz)).
+Qed.
